@@ -293,7 +293,7 @@ func pairJob(raw json.RawMessage) (any, error) {
 
 // c17ExoticTokens: parameter spellings the parser accepts besides the plain ones (empty rule, braces inside a rule,
 // '-' flag), and literal text in which two patterns share the first bytes of a multi-byte character.
-var c17ExoticTokens = []string{"a", "/", "/\u4e2d", "/\u4e3d", "\u4e2d", "\u4e3d", "{a}", "{b}", "{-a}", "{a:}", "{b:}", "{-b:}", "{a:\\d+}", "{b:\\d+}", "{a:a{}}", "{a:a{x}}", "{a:a{y}}", "{b:a{}}", "{a:x}", "{a:[}]}",
+var c17ExoticTokens = []string{"a", "/", "/\u4e2d", "/\u4e3d", "\u4e2d", "\u4e3d", "{a}", "{b}", "{-a}", "{--a}", "{a:}", "{b:}", "{-b:}", "{a:\\d+}", "{b:\\d+}", "{a:a{}}", "{a:a{x}}", "{a:a{y}}", "{b:a{}}", "{a:x}", "{a:[}]}",
 	"/" + strings.Repeat("s", 300)} // literal text longer than one byte can count
 
 func c17ExoticPool() []string {
